@@ -56,7 +56,7 @@ PROPS = {
         "assumptions": ["exception-free behaviours"],
     },
     "C04": {
-        "profile": "rtc", "n_quick": 5, "n_thorough": 40, "nops": 16, "nlists": 4, "cfgs": SIX,
+        "profile": "rtc", "n_quick": 5, "n_thorough": 40, "nops": 16, "nlists": 4, "cfgs": SIX + ["back+circ", "back11+circ"],
         "ops": lambda g, md, n: (g.gen_ops_queue(md, n) if g.rng.random() < 0.5 else g.gen_ops(md, n)),
         "monitor": M.mon_C04,
         "relevant": M.relevant_by(M.proj(M.ALL, keep_res=True, keep_snap=True, keep_ev=True)),
@@ -64,7 +64,7 @@ PROPS = {
                 "positions, plus enqueue / drain / single-step operations from outside; payloads identify occurrences; "
                 "cases in which the model reports re-entrant processing (known finding F16: submission from a substate's exit "
                 "while the enclosing machine leaves the submachine) are discarded and counted",
-        "assumptions": ["queue containers of sufficient capacity (std::deque)", "no throws in these runs"],
+        "assumptions": ["queue containers of sufficient capacity (std::deque; boost::circular_buffer with capacity 64 in the +circ configurations)", "no throws in these runs"],
     },
     "C05": {
         "profile": "defer", "n_quick": 5, "n_thorough": 40, "nops": 18, "nlists": 3, "cfgs": SIX,
@@ -121,7 +121,7 @@ PROPS = {
         "assumptions": CORE_ASSUME + ["back11: machines with exit points are skipped (the library does not compile them)"],
     },
     "C13": {
-        "profile": "common", "n_quick": 6, "n_thorough": 50, "nops": 18, "nlists": 3, "cfgs": SIX,
+        "profile": "common", "n_quick": 6, "n_thorough": 50, "nops": 18, "nlists": 3, "cfgs": SIX + ["back+circ", "back11+circ"],
         "monitor": None, "cross_cfg": M.proj_C13,
         "relevant": M.relevant_by(M.proj(M.ALL, keep_res=True, keep_snap=True, keep_ev=True)),
         "rule": "machines inside the common feature subset (no machine-level internal tables, no Kleene / base-class triggers, "
